@@ -26,7 +26,11 @@ from rpylib.process.levyprocess import (
     SimulationWithJumpTimes,
     SimulationMaximumStep,
 )
-from rpylib.process.markovchain.markovchain import MarkovChain, compute_mu_h
+from rpylib.process.markovchain.markovchain import (
+    MarkovChain,
+    compute_mu_h,
+    cumulate_slices,
+)
 from rpylib.product.payoff import PayoffDates
 from rpylib.product.product import Product
 
@@ -243,9 +247,7 @@ class MCLevyCopulaSimulationFixedTimes(MCLevyCopulaSimulation, SimulationFixedTi
     def simulate_one_path(self) -> StochasticPath:
         # simulate the jump values
         simulated_jumps = self.simulate_jumps()
-        jumps = np.hstack(
-            (np.zeros(self._dimension)[:, np.newaxis], simulated_jumps[:, np.newaxis])
-        )
+        jumps = np.hstack((np.zeros(self._dimension)[:, np.newaxis], simulated_jumps))
 
         # simulate the diffusion part
         simulated_diffusion = self.simulate_diffusion_part()
@@ -266,10 +268,11 @@ class MCLevyCopulaSimulationFixedTimes(MCLevyCopulaSimulation, SimulationFixedTi
     @staticmethod
     def project(values, dim):
         zero = (0.0,) * dim
-        definitive_values = (
+        definitive_values = [
             sliceStates[-1] if sliceStates.size else zero for sliceStates in values
-        )
-        return np.array(*definitive_values)
+        ]
+        # one column per product date: running sum of the jumps (each slice is cumulated from 0)
+        return np.cumsum(np.array(definitive_values, dtype=float), axis=0).T
 
     def simulate_jumps(self):
         mc = self.simulate_markov_chain()
@@ -339,7 +342,9 @@ class MCLevyCopulaSimulationWithJumpTimes(
 
     def simulate_jumps(self):
         mc = self.simulate_markov_chain()
-        jump_values = np.concatenate(mc.values, axis=-1).T
+        # running sum over the product dates; the slices without jump are left out
+        slices = [values for values in cumulate_slices(mc.values) if len(values)]
+        jump_values = np.concatenate(slices, axis=0).T if slices else np.array([])
         jump_times = mc.times
         return jump_times, jump_values
 
